@@ -95,7 +95,8 @@ func newSys(cfg config) *sys {
 	})
 	three := []cbreaker.Option{cbreaker.FallbackDuration(cfg.fallback), cbreaker.RecoveryDuration(cfg.recovery), cbreaker.CheckPeriod(cfg.checkPeriod)}
 	ord := optionOrders[cfg.order]
-	cb, err := cbreaker.New(h, cfg.cond, three[ord[0]], three[ord[1]], three[ord[2]])
+	// side-effect hooks are configured too (stateless ones: nothing of theirs enters the state key)
+	cb, err := cbreaker.New(h, cfg.cond, three[ord[0]], three[ord[1]], three[ord[2]], cbreaker.OnTripped(noEffect{}), cbreaker.OnStandby(noEffect{}))
 	if err != nil {
 		panic(err)
 	}
@@ -119,6 +120,10 @@ func (s *sys) state() string {
 }
 
 type verdict struct{ key, detail string }
+
+type noEffect struct{}
+
+func (noEffect) Exec() error { return nil }
 
 // abortCode: the protected handler aborts the exchange by panicking instead of answering.
 const abortCode = -1
@@ -172,6 +177,12 @@ func (s *sys) request(code int, latency time.Duration) (string, []verdict) {
 	}
 	if !served && rec.Code != http.StatusServiceUnavailable {
 		vs = append(vs, verdict{"C05:refused-without-fallback-response", obs})
+	}
+	// "after the fallback period the breaker re-admits traffic gradually": a request that arrives once the fallback
+	// duration has passed finds the breaker tripped for the last time - it starts the recovery
+	if before == "tripped" && after == "tripped" && s.tripped && !arrival.Before(s.tripAt.Add(s.cfg.fallback)) {
+		vs = append(vs, verdict{"C12:still-tripped-after-fallback-elapsed",
+			fmt.Sprintf("tripped at +%v, fallback %v: the request arriving at +%v left the breaker tripped (%s)", s.tripAt.Sub(base), s.cfg.fallback, arrival.Sub(base), obs)})
 	}
 	// --- C12
 	R := int64(s.cfg.recovery)
@@ -413,7 +424,7 @@ func Run(tier string, sh lib.Shard, rep *lib.Report) {
 	rep.Rule = "BFS over all histories (exact keys: full reflective dump of the breaker incl. metrics + absolute instant + monitor; depth-bounded) of Req(code,latency)/Advance(d) on the real CircuitBreaker under a frozen clock; state observed through String(); non-trivial = requests issued while the breaker is tripped or recovering"
 	rep.Assume("A2: one API call observes one instant of the frozen clock, except that the protected handler may advance it by its latency")
 	if prop == "C12" {
-		rep.Require("requests_passed_during_recovery", "requests_refused_during_recovery", "returns_to_standby", "re_trips_from_recovery")
+		rep.Require("requests_passed_during_recovery", "requests_refused_during_recovery", "returns_to_standby", "re_trips_from_recovery", "prepared_states_retripped_early_in_recovery")
 	} else {
 		rep.Require("trips_observed", "requests_shielded_while_tripped", "requests_passed_during_recovery", "returns_to_standby", "prepared_states_retripped_mid_recovery", "sub_millisecond_searches")
 	}
@@ -462,6 +473,33 @@ func Run(tier string, sh lib.Shard, rep *lib.Report) {
 		}
 		r := m.Run(rep)
 		rep.Sample(3, map[string]any{"model": m.Name, "result": r.Describe()})
+		if prop == "C12" {
+			// a second prepared state: eight refusals at ramp 0, then - a quarter into the recovery - the first admitted
+			// request fails and the breaker trips again, with most of the interrupted recovery still ahead
+			q := -1
+			for i, n := range m.Ops {
+				if n == fmt.Sprintf("Advance(%v)", cfg.recovery/4) {
+					q = i
+				}
+			}
+			adv := m.Roots[0][1]
+			if q >= 0 {
+				root := []int{1, adv, 0, 0, 0, 0, 0, 0, 0, 0, q, 1}
+				probe := m.New()
+				last := ""
+				for _, o := range root {
+					last = m.Apply(probe, o)
+				}
+				if strings.HasPrefix(last, "recovering>tripped") {
+					rep.Count("prepared_states_retripped_early_in_recovery")
+				}
+				m2 := model(cfg, prop, tier, 5)
+				m2.Name += "/from-retrip-a-quarter-into-recovery"
+				m2.Shard, m2.ShardLevel = sh, 2
+				m2.Roots = [][]int{root}
+				m2.Run(rep)
+			}
+		}
 		if prop == "C05" {
 			// start from non-initial states too: "recovery has begun" and "re-tripped out of recovery"
 			// (the second needs eleven operations from the initial state, beyond the depth bound)
